@@ -121,6 +121,12 @@ def run_case(case):
             continue
         if len(pairs) == 0:
             continue
+        if not (np.isfinite(dist).all() and np.isfinite(disp).all()):
+            # (comparisons below are of the form |a - b| > tol, which a NaN passes)
+            bad_ = np.argwhere(~np.isfinite(dist))
+            viol.append((tag + "/not-finite", "distance / displacement is NaN or inf, e.g. frame %s pair %s" % (
+                (bad_[0][0], pairs[bad_[0][1]].tolist()) if len(bad_) else ("?", "?"))))
+            continue
         for f in range(nf):
             d_plain = x[f, pairs[:, 1]] - x[f, pairs[:, 0]]
             if use_cell:
@@ -169,6 +175,9 @@ def run_case(case):
             dt = md.compute_distances_t(traj, pairs, tp, periodic=periodic, opt=opt)
             if dt.shape != (len(tp), len(pairs)):
                 viol.append((tag + "/shape", str(dt.shape)))
+                continue
+            if not np.isfinite(dt).all():
+                viol.append((tag + "/not-finite", "a time-pair distance is NaN or inf"))
                 continue
             for ti, (t1, t2) in enumerate(tp):
                 a = x[t1, pairs[:, 0]]
